@@ -194,7 +194,7 @@ class SLock(object):
 class Run(object):
     """one scheduled execution of `ops` (one thread each) over one cached rule"""
 
-    def __init__(self, rule, ops, step_timeout=10.0):
+    def __init__(self, rule, ops, step_timeout=60.0):
         self.rule = rule
         self.ops = ops
         self.T = step_timeout
